@@ -23,7 +23,7 @@
 (* then API edits in any order -- build a function, delete one, export or  *)
 (* unexport one, run the GC pass -- and finally emission.                  *)
 (***************************************************************************)
-EXTENDS Naturals, Integers, Sequences, FiniteSets, TLC, Json
+EXTENDS Naturals, Integers, Sequences, FiniteSets, TLC, Json, SequencesExt
 
 CONSTANTS Lists,      \* the value-type lists signatures are made of (a set of sequences of strings)
           MaxTypes, MaxFuncs, MaxEdits
@@ -60,11 +60,11 @@ Insert(s, key) ==
                dmap |-> s.dmap \cup {<<key, id>>}],
         id |-> id]
 \* ArenaSet::remove: forget the key of the stored value, then tombstone it (on_delete clears params and results)
-Remove(s, id) ==
+RemoveType(s, id) ==
   [arena |-> [s.arena EXCEPT ![id + 1] = [p |-> <<>>, r |-> <<>>, entry |-> @.entry, live |-> FALSE]],
    dmap |-> {e \in s.dmap : e[1] # Key(s.arena[id + 1])}]
 RECURSIVE RemoveAll(_, _)
-RemoveAll(s, ids) == IF ids = {} THEN s ELSE LET id == CHOOSE x \in ids : TRUE IN RemoveAll(Remove(s, id), ids \ {id})
+RemoveAll(s, ids) == IF ids = {} THEN s ELSE LET id == CHOOSE x \in ids : TRUE IN RemoveAll(RemoveType(s, id), ids \ {id})
 
 \* ModuleTypes::find: a live, non-entry type with that signature
 Find(s, p, r) == IF \E e \in s.dmap : e[1] = <<p, r, FALSE>> THEN (CHOOSE e \in s.dmap : e[1] = <<p, r, FALSE>>)[2] ELSE -1
@@ -155,7 +155,7 @@ Emit ==
   /\ LET written == {id \in Live : ~T(id).entry}
          needed == UNION {{funcs[q].ty} \cup Ran(funcs[q].uses) : q \in {x \in DOMAIN funcs : funcs[x].live}}
      IN IF needed \subseteq written
-        THEN pc' = "done" /\ out' = CHOOSE sq \in [1..Cardinality(written) -> written] : Ran(sq) = written
+        THEN pc' = "done" /\ out' = SetToSeq(written)
         ELSE pc' = "panic" /\ out' = <<>>
   /\ hist' = Append(hist, Op("emit", <<>>))
   /\ UNCHANGED <<arena, dmap, insigs, i2t, funcs, nedits, clean>>
